@@ -1,6 +1,7 @@
 use crate::report::Report;
 use crate::Ctx;
 
+pub mod server;
 pub mod c14;
 pub mod c15;
 pub mod c16;
@@ -10,6 +11,11 @@ pub mod c19;
 
 pub fn run(ctx: &Ctx, rep: &mut Report) -> bool {
     match ctx.prop.as_str() {
+        "c01" | "c07" => {
+            server::run(ctx, rep, &ctx.prop);
+            server::run_single_zone(ctx, rep, &ctx.prop);
+        }
+        "c02" | "c03" | "c04" | "c05" | "c08" | "c09" => server::run(ctx, rep, &ctx.prop),
         "c14" => c14::run(ctx, rep),
         "c15" => c15::run(ctx, rep),
         "c16" => c16::run(ctx, rep),
@@ -19,4 +25,27 @@ pub fn run(ctx: &Ctx, rep: &mut Report) -> bool {
         _ => return false,
     }
     true
+}
+
+/// Debug helper: `qv dbg-req <hex request> [tcp]` runs one request
+/// against an empty catalog and prints the classification and response.
+pub fn debug_request(hexreq: &str, tcp: bool) {
+    use crate::report::{hex, unhex};
+    let req = unhex(hexreq).expect("hex");
+    let p = crate::reqclass::classify(&req);
+    println!("P: stop={:?} opt_reached={} opt={:?} tsig={} question={:?}", p.stop, p.opt_reached, p.opt, p.tsig.is_some(), p.question.as_ref().map(|q| (q.name.to_text(), q.qtype, q.qclass)));
+    let cat = std::sync::Arc::new(crate::gen::QCatalog::new());
+    let server = crate::srv::make_server(cat, &crate::srv::ServerCfg { payload: 1232, rrl: None, keys: vec![] });
+    let mut bufs = crate::srv::Buffers::new(1232);
+    match crate::srv::handle(&server, &req, crate::srv::LOCALHOST, tcp, &mut bufs) {
+        Ok(Some(r)) => {
+            println!("response: {}", hex(&r));
+            match crate::wire::decode(&r) {
+                Ok(m) => println!("rcode {} aa {} tc {} an {} ns {} ar {}", m.ext_rcode(), m.header.aa(), m.header.tc(), m.header.ancount, m.header.nscount, m.header.arcount),
+                Err(e) => println!("undecodable: {}", e),
+            }
+        }
+        Ok(None) => println!("no response"),
+        Err(p) => println!("panic at {}: {}", p.location, p.message),
+    }
 }
